@@ -25,6 +25,10 @@ class Boom(Exception):
     pass
 
 
+class BoomBase(BaseException):
+    """A fault that is not an Exception subclass (SystemExit-like)."""
+
+
 class Log:
     def __init__(self):
         self.ev = []
@@ -165,7 +169,7 @@ class LoopEnv:
                 fire = (fs["pattern"] == "always" or (fs["pattern"] == "first" and n == 1)
                         or (fs["pattern"] == "later" and n >= 2))
                 if fire:
-                    e = Boom(site)
+                    e = (BoomBase if fs.get("kind") == "base" else Boom)(site)
                     self.log.add("raise", site, id(e))
                     fs.setdefault("raised", []).append(e)
                     raise e
@@ -326,6 +330,9 @@ def build_robot(layout, H, opts):
     class CompB(CompA):
         NAME = "c2"
         y = will_reset_to("dflt")
+        z = will_reset_to(2.5)  # CompA.z (below) re-declared with another default
+
+    CompA.z = will_reset_to(1.5)
 
     class CompB1:
         NAME = "c2"
@@ -528,7 +535,7 @@ def run_robot(c, job, opts=None):
                 continue
             pats = cfg.get("fault_patterns", ["first", "always", "later"])
             p = pats[c.choose(f"fpat{j}", len(pats))]
-            plan.append(dict(site=avail[k], pattern=p, n=0))
+            plan.append(dict(site=avail[k], pattern=p, n=0, kind=cfg.get("fault_kind", "exception")))
         env.fault = plan
         H.fault_plan = plan
     else:
@@ -546,7 +553,7 @@ def run_robot(c, job, opts=None):
     outcome = ("normal", None)
     try:
         r.startCompetition()
-    except Boom as e:
+    except (Boom, BoomBase) as e:
         outcome = ("boom", e)
     except Exception as e:
         outcome = ("error", repr(e)[:300])
